@@ -15,6 +15,7 @@ import asphalt.core._runner as _rn  # noqa: E402
 from asphalt.core import (  # noqa: E402
     CLIApplicationComponent,
     Component,
+    add_resource,
     add_teardown_callback,
     run_application,
     start_service_task,
@@ -98,6 +99,11 @@ def build_app(ending, nchild, when, log, ctl):
 
         add_teardown_callback(cb)
 
+    def td_res(label):
+        """A resource with a teardown callback (add_resource(..., teardown_callback=))."""
+        log.append(("registered", label))
+        add_resource(object(), label.replace(".", "_"), teardown_callback=lambda: log.append(("td", label)))
+
     def td_nested(label):
         """A callback that registers a further callback while the teardown is running."""
         log.append(("registered", label))
@@ -122,6 +128,7 @@ def build_app(ending, nchild, when, log, ctl):
 
         async def start(self):
             await atd(f"child{self.idx}.start1")
+            td_res(f"child{self.idx}.resource")
             await anyio.sleep(0)
             if self.fail == "starting":
                 raise boom
@@ -158,6 +165,21 @@ def build_app(ending, nchild, when, log, ctl):
 
         async def prepare(self):
             td("root.prepare")
+            # a service task publishes a resource on the APPLICATION context through the context object's
+            # method (the task's own context is current at that moment)
+            posted = anyio.Event()
+
+            async def poster():
+                from asphalt.core import current_context
+
+                app_ctx = current_context().parent
+                log.append(("registered", "root.viatask"))
+                app_ctx.add_resource(object(), "posted_by_task", teardown_callback=lambda: log.append(("td", "root.viatask")))
+                posted.set()
+                await anyio.sleep_forever()
+
+            await start_service_task(poster, "poster")
+            await posted.wait()
             td_nested("root.nested")
             td_aw("root.awaitable")
             ctl["started"] = anyio.Event()
